@@ -46,7 +46,7 @@ func Gen(t *rapid.T) *Case {
 		md = 40
 	}
 	o := gen.ImageOpts{MaxDim: md, MaxArea: md * md, Comps: []int{1, 3}, PMin: 8, PMax: 8, Signed: true,
-		Classes: []string{"noise", "noise", "constant", "sparse", "twolevel", "gradient", "extremes"}, LiteralMax: 30}
+		Classes: []string{"noise", "noise", "constant", "sparse", "twolevel", "gradient", "extremes", "lpgain"}, LiteralMax: 30}
 	im := gen.ImageGen(o).Draw(t, "img")
 	if rapid.Bool().Draw(t, "16bit") {
 		im.P = 16
